@@ -472,7 +472,8 @@ SEQ_ITEMS = ['!!python/tuple [*x]', '!!python/object/apply:vf_shapes.make_factor
              '{? &n !!python/object:vf_shapes.Plain {me: *n} : 1}', '!!set {? &p !!python/object:vf_shapes.Plain {me: *p, other: *x}}',
              '{? &u !!python/tuple [1, s] : *u}']
 # absolute expectations for some items (index -> outcome class when loaded alone after the prelude, optional verifier)
-SEQ_EXPECT = {16: ('ConstructorError', None), 17: ('ConstructorError', None),
+SEQ_EXPECT = {5: ('ok', lambda item: item[1] is item), 6: ('ok', lambda item: item['self'] is item), 7: ('ok', lambda item: item[0][0] is item), 8: ('ok', lambda item: item.me is item),
+              14: ('ok', lambda item: item[0][0] is item), 16: ('ConstructorError', None), 17: ('ConstructorError', None),
               19: ('ok', lambda item: len(item) == 1 and list(item)[0].me is list(item)[0]),
               20: ('ok', lambda item: len(item) == 1 and list(item)[0].me is list(item)[0]),
               21: ('ok', lambda item: list(item.values())[0] is list(item)[0])}
